@@ -385,6 +385,15 @@ fn main() {
                 Ok(v) => v,
                 Err(e) => json!({"panic": panic_msg(e)}),
             },
+            "highlight" => match catch_unwind(AssertUnwindSafe(|| {
+                use lineread::highlighting::{Highlighter, Style};
+                let h = x::highlight::CicadaHighlighter;
+                let st = h.highlight(&line);
+                json!({"len": line.len(), "ranges": st.iter().map(|(r, s)| json!([r.start, r.end, match s { Style::Default => 0, _ => 1 }])).collect::<Vec<_>>()})
+            })) {
+                Ok(v) => v,
+                Err(e) => json!({"panic": panic_msg(e)}),
+            },
             "stages" => stages(&mut sh, &line, false),
             "cheap" => stages(&mut sh, &line, true),
             "calc" => match catch_unwind(AssertUnwindSafe(|| {
